@@ -9,6 +9,8 @@ import (
 	"os"
 	"os/exec"
 	"path/filepath"
+	"runtime"
+	"runtime/pprof"
 	"sort"
 	"strconv"
 	"strings"
@@ -165,6 +167,20 @@ func Main() {
 		r := NewRun(p, *tier, seed, *shard, *nshards, time.Duration(bsec)*time.Second)
 		r.Announce = *out + ".case"
 		p.Run(r)
+		if mp := os.Getenv("VERIF_MEMPROF"); mp != "" { // diagnostic only: heap profile of this worker
+			if f, err := os.Create(mp); err == nil {
+				runtime.GC()
+				pprof.WriteHeapProfile(f)
+				f.Close()
+				var ms runtime.MemStats
+				runtime.ReadMemStats(&ms)
+				fmt.Fprintf(os.Stderr, "MEMPROF goroutines=%d heap_inuse=%dMB heap_sys=%dMB stack_sys=%dMB sys=%dMB heap_released=%dMB\n", runtime.NumGoroutine(), ms.HeapInuse>>20, ms.HeapSys>>20, ms.StackSys>>20, ms.Sys>>20, ms.HeapReleased>>20)
+				if g, err := os.Create(mp + ".goroutines"); err == nil {
+					pprof.Lookup("goroutine").WriteTo(g, 1)
+					g.Close()
+				}
+			}
+		}
 		b, err := json.Marshal(r.Result())
 		if err != nil {
 			fmt.Fprintln(os.Stderr, "marshal:", err)
